@@ -86,6 +86,17 @@ CORPUS = [
     ("corpus:F140-initial-case", "while true:\n    x = x + y**2 + z\n    y = y - y**2\n    z = 1\nend\n", 1),
     ("corpus:F141-random-walk-square",
      "z = 0\nwhile true:\n    z = z + 1 {1/2} z - 1\n    x = x + y**2 + z**2\n    y = y - y**2\nend\n", 1),
+    # random, mutually dependent initial values and an invariant with a mixed monomial: E(x^a y^b)(0) is not the
+    # product of the single-variable initial moments (n = 0 of the oracle comparison)
+    ("corpus:dependent-init-choice",
+     "x = 1 {1/2} 3\ny = 2*x\nwhile true:\n    x, y = x + x*y, y + x*y\nend\n", 2),
+    ("corpus:dependent-init-duniform",
+     "y = DiscreteUniform(0, 2)\nx = y**2 - y\nz = 0\nwhile true:\n    z = 1 - z\n    x = 2*x + y**2\n"
+     "    y = 2*y + 3*y**2\nend\n", 2),
+    # k = 0 with an effective part polynomial in n (sympy leaves Sum(0**j ...) unevaluated)
+    ("corpus:kzero-counter", "while true:\n    w = w + 1\n    x = y**2 + w\n    y = w - y**2\nend\n", 1),
+    ("corpus:kzero-counter-sum",
+     "while true:\n    w = w + 1\n    v = v + w\n    x = y**2 + v\n    y = 2*v - y**2\nend\n", 1),
     # the same defect on the `handle_solvable_loop` branch: y in {0, -1} is finite, every variable is effective
     ("corpus:F141-all-effective",
      "y = 0\nwhile true:\n    x, y = x + 3*y**2 + (1/2)*z + z**2, y + y**2 - 1\n    z = Normal(0, 4)\nend\n", 1),
@@ -203,7 +214,7 @@ def build_cases(tier):
         for d in ds:
             cases.append({"id": f"bench:{f}:{d}", "kind": "bench", "path": f, "inv_deg": d})
     r = rng(f"{PROP}-{tier}-gen")
-    n_gen = 26 if quick else 260
+    n_gen = 30 if quick else 300
     for i in range(n_gen):
         c = c14gen.generate(r, i)
         c["kind"] = "gen"
